@@ -229,11 +229,13 @@ class Engine(
         """  # noqa: D401
         match operation:
             case Calculation(tag=tag):
-                if select.is_compound:
+                if select.is_compound or tag in select.skip_to.columns:
                     # This Select wraps a Chain operation in order to represent
                     # a SQL UNION or UNION ALL, and we trust the user's intent
                     # in putting those upstream of this operation, so we also
-                    # add a nested subquery here.
+                    # add a nested subquery here.  We do the same if the new
+                    # column has the name of one the Select's projection hides,
+                    # since the Select's other operations may still use that.
                     return Select.apply_skip(operation._finish_apply(select))
                 elif select.has_projection:
                     return select.reapply_skip(
